@@ -1456,6 +1456,9 @@ class Container:
                                for substance, value in self.contents.items() if not substance.is_enzyme())
 
         required_quantity = quantity - current_quantity
+        if round(required_quantity, config.internal_precision) < 0:
+            raise ValueError("Container already holds more than the requested quantity.")
+        required_quantity = max(required_quantity, 0.0)
         result = self._add(solvent, f"{required_quantity} {quantity_unit}")
         required_volume = Unit.convert(solvent, f"{required_quantity} {quantity_unit}", 'L')
         required_volume, unit = Unit.get_human_readable_unit(required_volume, 'L')
